@@ -1,0 +1,52 @@
+//go:build !verif
+// +build !verif
+
+package simdjson
+
+// Simulation hook points. Without the "verif" build tag these are empty
+// functions that the compiler inlines away; shipped behaviour is unchanged.
+// See sim_hooks_verif.go for the instrumented variants.
+
+type simEvent int
+
+const (
+	simPAcquire simEvent = iota + 1
+	simPSend
+	simPDone
+	simCRecv
+	simCReceived
+	simCStart
+	simCDone
+	simNDChunkStart
+	simNDChunkParsed
+	simPoolGet
+	simPoolPutBefore
+	simPoolPutAfter
+)
+
+const (
+	simProbeAsync = iota
+	simProbeSync
+	simProbeStrippedCarry
+	simProbePaddedTail
+	simProbeStringPadSmall
+	simProbeStringPadLarge
+	simProbeStringsRegrow
+	simProbeDrainAsync
+	simProbeStage1FailAsync
+	simProbeNDBlankChunk
+	simProbeDrainSync1
+	simProbeDrainSync2
+)
+
+const (
+	simPoolS2Fast = iota
+	simPoolS2
+	simPoolZstdEnc
+	simPoolS2Reader
+	simPoolZstdDec
+)
+
+func simHook(ev simEvent, pj *internalParsedJson, arg int) {}
+
+func simProbe(id int) {}
